@@ -460,7 +460,7 @@ struct Body {
 impl Body {
     fn un(&mut self, op: UnOp) {
         self.repl = match &op {
-            UnOp::Shuffle | UnOp::Gb(..) | UnOp::Broadcast | UnOp::Win(..) => Repl::Unlimited,
+            UnOp::Shuffle | UnOp::Gb(..) | UnOp::Broadcast | UnOp::Win(..) | UnOp::Extra(ExtraOp::KeyedChain(..)) | UnOp::Extra(ExtraOp::UniqueKeys) => Repl::Unlimited,
             UnOp::Repl(r) => *r,
             UnOp::Gl(..) | UnOp::WinAll(..) => Repl::One,
             _ => self.repl,
